@@ -9,6 +9,8 @@ package k8s
 import (
 	"crypto/sha1" //nolint:gosec // Non-crypto use
 	"encoding/hex"
+	"sort"
+	"strings"
 
 	v1 "k8s.io/apimachinery/pkg/apis/meta/v1"
 	"k8s.io/apimachinery/pkg/labels"
@@ -62,6 +64,13 @@ func SelectorsFullMatch(ruleSelector, repSelector *v1.LabelSelector) (bool, erro
 	// v1.LabelSelectorAsSelector:
 	// https://github.com/kubernetes/apimachinery/blob/dc7e034c86479d49be4b0eefad307621e10caa0e/pkg/apis/meta/v1/helpers.go#L34
 	// Requirements.Add : https://github.com/kubernetes/apimachinery/blob/d7e1c5311169d5ece2db0ae0118066859aa6f7d8/pkg/labels/selector.go#L373
+	// requirements on the same key are not ordered by Requirements(): selectors with the same canonical key match fully,
+	// whatever the order their requirements were written in
+	if ruleKey, err := UniqueKeyFromLabelsSelector(ruleSelector); err == nil {
+		if repKey, err := UniqueKeyFromLabelsSelector(repSelector); err == nil && ruleKey == repKey {
+			return true, nil
+		}
+	}
 	ruleRequirements, _ := ruleSelectorConverted.Requirements() // sorted
 	repRequirements, _ := repSelectorConverted.Requirements()   // sorted
 	if len(ruleRequirements) != len(repRequirements) {
@@ -144,5 +153,10 @@ func UniqueKeyFromLabelsSelector(ls *v1.LabelSelector) (string, error) {
 		reqStr += currentStr
 		reqStr += ";" // separate requirements, so different selectors may not get same string
 	}
+	// Requirements() is sorted by key only: requirements on the same key keep the order they were written in.
+	// sort the strings, so that the same requirements in another order get the same key
+	reqStrings := strings.Split(strings.TrimSuffix(reqStr, ";"), ";")
+	sort.Strings(reqStrings)
+	reqStr = strings.Join(reqStrings, ";") + ";"
 	return hex.EncodeToString(sha1.New().Sum([]byte(reqStr))), nil //nolint:gosec // Non-crypto use
 }
